@@ -21,7 +21,7 @@
  *
  * tree = ( 0 name ino desc meta ) | ( 1 name ( child ... ) () meta ) | ( 2 name target () meta )
  *      | ( 3 name filetype () meta );  meta = ( mode mtime-sec mtime-nsec ( ( xname xvalue ) ... ) size
- *      ( ( offset length seed ) ... ) ).  The struct tree is reached by including the source file. */
+ *      ( ( offset length seed [literal-bytes] ) ... ) ).  The struct tree is reached by including the source file. */
 #define _GNU_SOURCE
 #include "archive_read_disk_posix.c"
 #include <sys/xattr.h>
@@ -99,6 +99,11 @@ static void make_node(int dirfd, val *n)
 				val *s = v_at(segs, k);
 				unsigned long long off = v_ull(v_at(s, 0)), len = v_ull(v_at(s, 1)), seed = v_ull(v_at(s, 2));
 				unsigned char buf[65536];
+				val *lit = v_at(s, 3);	/* optional 4th element: literal bytes instead of the pattern */
+				if (lit->kind == 1 && lit->n > 0) {
+					if (pwrite(fd, lit->b, lit->n, (off_t)off) != (ssize_t)lit->n) make_errors++;
+					continue;
+				}
 				while (len > 0) {
 					size_t c = len > sizeof(buf) ? sizeof(buf) : (size_t)len, j;
 					for (j = 0; j < c; j++) buf[j] = pattern_byte(off + j, seed);
